@@ -1007,18 +1007,25 @@ impl<const N: usize> MutLayout for NdLayout<N> {
             });
         }
 
-        let mut shape: [usize; M] = [0; M];
-        let mut strides: [usize; M] = [0; M];
-
-        let (ndim, offset) =
-            slice_layout(self.shape, self.strides, &mut shape, &mut strides, range)?;
-
-        if ndim != M {
+        // Check the output rank before slicing, as `slice_layout` writes one
+        // entry of `shape` and `strides` per output dimension.
+        let out_dims = self.ndim()
+            - range
+                .iter()
+                .filter(|item| matches!(item, SliceItem::Index(_)))
+                .count();
+        if out_dims != M {
             return Err(SliceError::OutputDimsMismatch {
-                actual: ndim,
+                actual: out_dims,
                 expected: M,
             });
         }
+
+        let mut shape: [usize; M] = [0; M];
+        let mut strides: [usize; M] = [0; M];
+
+        let (_ndim, offset) =
+            slice_layout(self.shape, self.strides, &mut shape, &mut strides, range)?;
 
         let layout = NdLayout { shape, strides };
         Ok((offset..offset + layout.min_data_len(), layout))
